@@ -22,8 +22,8 @@
   do not overlap each other; they interleave freely with all workers), `frequency > 0` or not,
   daemon or non-daemon workers (`join` blocks the controller until the worker has left `run`).
   Ghost fields (`calls`, `after`, `stopRet`, `lastRet`, `nret`) record what the property talks about.
-  Not modelled: a callback that raises (the worker would die with `Monitor.thread` still set),
-  overlapping controller calls, `Monitor.stop` called from the worker itself, `bus.log` output.
+  A callback that raises is modelled (`Tid.wx`: the worker dies with `running` and `Monitor.thread` still
+  set).  Not modelled: overlapping controller calls, `Monitor.stop` called from the worker itself, `bus.log` output.
 -/
 namespace CpModel.Monitor
 
@@ -46,6 +46,8 @@ structure Worker where
   stopRet : Bool := false
   /-- ghost: callback invocations begun after that `stop()` returned -/
   after : Nat := 0
+  /-- the callback raised: `run()` logged, re-raised and the thread died (with `running` still set) -/
+  crashed : Bool := false
   deriving DecidableEq, Repr, Inhabited
 
 inductive Call where
@@ -197,8 +199,10 @@ def stepCtl (p : Params) (c : Cfg) : Cfg :=
   | .done => c
   | .crashed => c
 
-/-- One step (= one source line) of worker `i`. -/
-def stepW (p : Params) (c : Cfg) (i : Nat) : Cfg :=
+/-- One step (= one source line) of worker `i`.  `boom`: if this step is the callback invocation,
+    the callback raises (`except Exception: log; raise` — the thread dies, nobody clears `running`
+    or `Monitor.thread`). -/
+def stepW (p : Params) (c : Cfg) (i : Nat) (boom : Bool := false) : Cfg :=
   let w := c.ws i
   match w.pc with
   | .created => c
@@ -209,13 +213,16 @@ def stepW (p : Params) (c : Cfg) (i : Nat) : Cfg :=
   | .chk => setW c i { w with pc := if w.running then .try_ else .ret }
   | .ret => setW c i { w with pc := .done }
   | .try_ => setW c i { w with pc := .call }
-  | .call => setW c i { w with pc := .loop, calls := w.calls + 1,
-                               after := if w.stopRet then w.after + 1 else w.after }
+  | .call => setW c i { w with pc := if boom then .done else .loop, calls := w.calls + 1,
+                               after := if w.stopRet then w.after + 1 else w.after,
+                               crashed := boom }
   | .done => c
 
 inductive Tid where
   | ctl
   | w (i : Nat)
+  /-- a turn of worker `i` in which the callback, if it is invoked, raises -/
+  | wx (i : Nat)
   deriving DecidableEq, Repr, Inhabited
 
 /-- Is the thread schedulable (exists, not finished, not blocked)? -/
@@ -227,6 +234,7 @@ def enabled (c : Cfg) : Tid → Bool
     | .sp11w => (c.ws c.tgt).pc = .done
     | _ => true
   | .w i => i < c.nw && (c.ws i).pc ≠ .created && (c.ws i).pc ≠ .done
+  | .wx i => i < c.nw && (c.ws i).pc ≠ .created && (c.ws i).pc ≠ .done
 
 /-- A scheduling choice of a thread that is not enabled is a no-op. -/
 def step (p : Params) (c : Cfg) (t : Tid) : Cfg :=
@@ -234,6 +242,7 @@ def step (p : Params) (c : Cfg) (t : Tid) : Cfg :=
     match t with
     | .ctl => stepCtl p c
     | .w i => stepW p c i
+    | .wx i => stepW p c i true
   else c
 
 def run (p : Params) (c : Cfg) : List Tid → Cfg
@@ -261,6 +270,7 @@ structure ObsW where
   started : Bool
   running : Bool
   done : Bool
+  crashed : Bool
   calls : Nat
   deriving DecidableEq, Repr, Inhabited
 
@@ -272,13 +282,14 @@ structure Obs where
   deriving DecidableEq, Repr, Inhabited
 
 def obsW (w : Worker) : ObsW :=
-  { started := w.pc != .created, running := w.running, done := w.pc == .done, calls := w.calls }
+  { started := w.pc != .created, running := w.running, done := w.pc == .done, crashed := w.crashed,
+    calls := w.calls }
 
 def obs (c : Cfg) : Obs :=
   { thread := c.thread, nret := c.nret, crashed := c.cpc == .crashed,
     ws := (List.range c.nw).map fun i => obsW (c.ws i) }
 
-def ObsW.render (w : ObsW) : String := s!"{b01 w.started}{b01 w.running}{b01 w.done}:{w.calls}"
+def ObsW.render (w : ObsW) : String := s!"{b01 w.started}{b01 w.running}{b01 w.done}{b01 w.crashed}:{w.calls}"
 
 /-- the text form the harness prints for the real objects -/
 def Obs.render (o : Obs) : String :=
@@ -315,7 +326,7 @@ def optCode (f : α → Nat) : Option α → Nat
 def keyStr (c : Cfg) : String :=
   let ws := (List.range c.nw).foldl (fun acc i =>
     let w := c.ws i
-    acc ++ s!"{w.pc.code}.{b01 w.running}{b01 w.stopRet}{w.calls}.{w.after},") ""
+    acc ++ s!"{w.pc.code}.{b01 w.running}{b01 w.stopRet}{b01 w.crashed}{w.calls}.{w.after},") ""
   s!"{optCode id c.thread}|{ws}|{c.cpc.code}|{c.g.code}|{c.todo.length}|{c.tgt}|{optCode Call.code c.cur}|{optCode Call.code c.lastRet}|{c.nret}|{optCode id c.cancelled}"
 
 end CpModel.Monitor
